@@ -9,14 +9,16 @@ harness/C16_hist.cpp) are run on the real System and on the extracted model; aft
 (system stage; validity of position/velocity kinematics, composite/articulated inertias, articulated velocities;
 Force::Gravity cache validity and evaluation count; call counters of position-only and velocity-dependent Custom elements)
 is compared exactly; at CMP operations everything computed from the State is compared with a freshly created State given
-the same values (the model predicts "nothing stale" -- implementation must equal the fresh state)."""
+the same values (the model predicts "nothing stale" -- implementation must equal the fresh state).  Three regression
+witnesses are replayed first and must pass: MobilityLinearSpring setStiffness (1efa2aab), zdot of a disabled LinearBushing
+(c50039ce), constraint multipliers with every mobility prescribed (1ce33455)."""
 import os, re, json, hashlib
 from vlib import *
 
 PROPS = ['Props/Properties_C16.v']
 EXTRACT = '''From Coq Require Import Extraction ExtrOcamlBasic.
 Require Import C16_Model C16_Systems C16_table_gen.
-Extraction "c16.ml" build run step init slot stale_results wf_table sound unsound_pairs nvars nres models code_now code_old witness
+Extraction "c16.ml" build build_z run step init slot stale_results wf_table sound unsound_pairs nvars nres models code_now code_old witness
   v_lock v_cons v_en v_par v_gexcl v_gmag v_gdir v_gzh r_elem r_grav r_total r_accel cls m0.
 '''
 # which discrete variable of the element a parameter setter j writes (per class)
@@ -212,8 +214,8 @@ def judge(m, ops, A, M):
         stats['cmp_values'] += int(mm.group(2)); stats['cmp_bitwise'] += int(mm.group(3))
         if int(mm.group(4)) > 0:
             if mm.group(6) == 'zdot' and k < len(zdis) and zdis[k]:
-                stats['zdot_known'] += 1; stats['zdot_line'] = l      # the refuted result class (C16_zdot_of_disabled_element_refuted)
-            elif prob is None or prob[1] != 'impl-stale':
+                stats['zdot_known'] += 1; stats['zdot_line'] = l      # z-derivative of a disabled element (C16_zdot_of_disabled_element_refuted_old_table; fixed by c50039ce)
+            if prob is None or prob[1] != 'impl-stale':
                 prob = ('implementation differs from a fresh State with the same values: ' + l, 'impl-stale')
     return len(sa), len(cmps), prob, stats
 
@@ -249,7 +251,7 @@ def witness(ctx, exe, drv, L):
             ctx.report('impl:mobilitylinearspring-stale-after-setStiffness', 'regression: ' + prob[0],
                        {'failing_input': fmt(WITNESS), 'system': sys_line(m).strip(), 'replay_cmd': 'bin/check C16 --replay <this file>'})
         ctx.broken.append(('witness:now', prob[0]))
-    # the z-derivative witness: reported while it reproduces (KNOWN-FINDING), silent after the repair
+    # the z-derivative witness (regression, fixed in /repo by c50039ce): must agree with the fresh State
     mz = [x for x in L if 13 in x['elems']]
     if mz:
         mz = mz[0]; zw = [('U', 0, 1), ('R', 8), ('E', mz['elems'].index(13), 0), ('R', 8), ('CMP',)]
@@ -258,10 +260,11 @@ def witness(ctx, exe, drv, L):
         ctx.extra['zdot_witness'] = {'history': fmt(zw), 'system': sys_line(mz).strip(), 'reproduces': bool(st2['zdot_known']),
                                      'implementation': ([l for l in A.get('z', []) if l.startswith('CMP')] or ['<none>'])[-1]}
         if st2['zdot_known']:
-            ctx.report(ZKEY, 'zdot of a disabled LinearBushing keeps the value computed while it was enabled: ' + st2['zdot_line'],
-                       {'failing_input': fmt(zw), 'system': sys_line(mz).strip(), 'theorem': 'C16_zdot_of_disabled_element_refuted'})
+            ctx.report('impl:' + ZKEY, 'regression: zdot of a disabled LinearBushing keeps the value computed while it was enabled: ' + st2['zdot_line'],
+                       {'failing_input': fmt(zw), 'system': sys_line(mz).strip(), 'theorem': 'C16_zdot_of_disabled_element_refuted_old_table'})
         if prob2: ctx.broken.append(('witness:zdot', prob2[0]))
-    # multipliers with every mobility prescribed and a constraint enabled: FactorQTZ::solve of the zero matrix leaves them unwritten
+    # multipliers with every mobility prescribed and a constraint enabled (regression, fixed in /repo by 1ce33455): FactorQTZ::solve of
+    # the zero matrix left them unwritten; they must be exactly 0
     mm_ = [x for x in L if x['ncons'] and x['nlock'] == x['nb']]
     if mm_:
         mm_ = mm_[0]
@@ -273,7 +276,8 @@ def witness(ctx, exe, drv, L):
         g = re.search(r'mulgarbage=(\S+)', cm); g = float(g.group(1)) if g else 0.0
         ctx.extra['multipliers_witness'] = {'history': fmt(mw), 'system': sys_line(mm_).strip(), 'max_abs_multiplier': g, 'reproduces': g != 0.0}
         if g != 0.0:
-            ctx.report(MKEY, 'all mobilities locked, Rod constraint enabled: getMultipliers() returns unwritten memory (|lambda| = %r; the rank-0 least-squares solution is 0)' % g,
+            ctx.broken.append(('witness:multipliers', 'getMultipliers() with all mobilities prescribed is not 0: %r' % g))
+            ctx.report('impl:' + MKEY, 'regression: all mobilities locked, Rod constraint enabled: getMultipliers() returns unwritten memory (|lambda| = %r; the rank-0 least-squares solution is 0)' % g,
                        {'failing_input': fmt(mw), 'system': sys_line(mm_).strip()})
         if prob3: ctx.broken.append(('witness:multipliers', prob3[0]))
     return n, nc
@@ -360,7 +364,7 @@ def run(ctx):
     ctx.cov['samples'] = [fmt(gen_history(random.Random(ctx.seed), L[1], 12))] if len(L) > 1 else []
     ctx.extra['distribution'] = {'operations': tot['ops'], 'histories': tot['histories'], 'cmp_operations': tot['cmp'], 'values_compared_with_fresh_state': tot['cmp_values'],
                                  'bitwise_equal': tot['cmp_bitwise'], 'systems': [m['elems'] for m in L],
-                                 'cmp_with_only_the_known_zdot_difference': tot['zdot_known']}
+                                 'cmp_where_zdot_of_a_disabled_element_differed': tot['zdot_known']}
     ctx.extra['scanned_table'] = {k: meta[k] for k in ('classes', 'gravity', 'fsub', 'matter', 'state')}
     if first:
         m, ops, prob = first
